@@ -596,7 +596,7 @@ impl PageLoader {
         let bucket = loop {
             match load.probe_sequence.next(&self.meta_map) {
                 ProbeResult::Tombstone(_) => continue,
-                ProbeResult::Empty(_) => return false,
+                ProbeResult::Empty(_) | ProbeResult::Exhausted => return false,
                 ProbeResult::PossibleHit(bucket) => break BucketIndex(bucket),
             }
         };
@@ -691,6 +691,7 @@ fn allocate_bucket(
             return None;
         }
         match probe_seq.next(&meta_map) {
+            ProbeResult::Exhausted => return None,
             ProbeResult::PossibleHit(_) => continue,
             ProbeResult::Tombstone(bucket) | ProbeResult::Empty(bucket) => {
                 meta_map.set_full(bucket as usize, probe_seq.hash);
@@ -721,6 +722,9 @@ enum ProbeResult {
     PossibleHit(u64),
     Empty(u64),
     Tombstone(u64),
+    /// The whole probe sequence has been walked without meeting an empty bucket, a tombstone or
+    /// a possible hit: the table is full.
+    Exhausted,
 }
 
 impl ProbeSequence {
@@ -736,6 +740,12 @@ impl ProbeSequence {
     // probe until there is a possible hit or an empty bucket is found
     fn next(&mut self, meta_map: &MetaMap) -> ProbeResult {
         loop {
+            // A full table has no empty bucket to stop at. Triangular numbers modulo `len` repeat
+            // after at most `2 * len` steps, so beyond that nothing new can be found.
+            if self.step > 2 * meta_map.len() as u64 {
+                return ProbeResult::Exhausted;
+            }
+
             // Triangular probing
             self.bucket += self.step;
             self.step += 1;
